@@ -304,8 +304,10 @@ impl Bundle {
             {
                 return None;
             }
-            // IO Finalizer has run, and neither bundle has excess spends or outputs.
-            (Some(_), _) | (_, Some(_)) => (),
+            // IO Finalizer has run, and neither bundle has excess spends or outputs. Keep
+            // the key whichever side carries it.
+            (None, Some(rhs)) => self.bsk = Some(rhs),
+            (Some(_), _) => (),
             // IO Finalizer has not run on either bundle.
             (None, None) => {
                 let (spends_cmp_other, outputs_cmp_other) = match (
